@@ -332,6 +332,19 @@ M('c20-no-lineno', 'C20', 'src/extensions/qaconf.c', 'qaconf->filepath, qaconf->
 M('c20-uncounted', 'C20', 'src/extensions/qaconf.c', "        // Increase process counter\n        optcount++;", "        // Increase process counter", 'B4', '_parse_inline', 'directives not counted')
 M('c20-nested-not-added', 'C20', 'src/extensions/qaconf.c', "                optcount += optcount2;", "                (void) optcount2;", 'B4', '_parse_inline', 'nested directive counts dropped')
 
+# ---- C10 (rules added after seeds) / C16 additions ---------------------------------------------
+M('c10-double-normalise', 'C10', 'src/containers/qvector.c',
+  "void *qvector_popat(qvector_t *vector, int index) {\n    vector->lock(vector);", "void *qvector_popat(qvector_t *vector, int index) {\n    vector->lock(vector);\n    if (index < 0) index += vector->num;",
+  'V2', 'qvector_popat', 'back-relative index resolved twice')
+M('c10-growth-zero', 'C10', 'src/containers/qvector.c', "            newmax = (vector->max + 1) * 2;", "            newmax = vector->max * 2;", 'G1', 'qvector_addat', 'doubling of capacity 0 stays 0')
+M('c16-b64-no-rezero', 'C16', 'src/utilities/qencode.c', "        memset((void *) szIn, 0, sizeof(szIn));\n", "", 'TB8', 'qbase64_encode', 'staging buffer not cleared between groups')
+M('c16-decode-before-split', 'C16', 'src/utilities/qencode.c',
+  "        char *name = qstrtrim(_q_makeword(value, equalchar));\n        qurl_decode(name);\n        qurl_decode(value);", "        qurl_decode(value);\n        char *name = qstrtrim(_q_makeword(value, equalchar));",
+  'TB9', 'qparse_queries', 'pair decoded before the name/value split')
+M('c01-cmp-prefix', 'C01', 'src/containers/qtreetbl.c', "    return (namesize1 < namesize2) ? -1 : +1;", "    return (namesize1 < namesize2) ? +1 : -1;", 'T6', 'qtreetbl_byte_cmp', 'prefix keys ordered backwards')
+M('c01-inplace-stale-size', 'C01', 'src/containers/qtreetbl.c', "            free(obj->data);\n            obj->data = copydata;\n            obj->datasize = datasize;", "            free(obj->data);\n            obj->data = copydata;",
+  'R2', 'put_obj', 'replacement keeps the old recorded size')
+
 
 def run_selftest(prop, rep, rule_fn, config='cmake-release'):
     """Apply every mutant of `prop` to a scratch copy, run rule_fn(prog, report) on it, and
